@@ -577,11 +577,15 @@ func getMultiBestPath(id string, pathList []*Path) []*Path {
 	}
 	best := pathList[0]
 
-	// Attempt to find the first path that is both reachable and worse than the
-	// best path. Then return a slice paths from the best to that index.
-	index := sort.Search(len(pathList), func(i int) bool {
-		return pathList[i].IsNexthopInvalid || pathList[i].Compare(best) != 0
-	})
+	// Find the first path that is unreachable or worse than the best path and
+	// return the paths before it. The list is ordered by the whole decision
+	// process (LLGR_STALE, ..., neighbor address), which is not the order
+	// Compare() induces, so the predicate is not monotone and a binary search
+	// could run past a worse path.
+	index := 1
+	for index < len(pathList) && !pathList[index].IsNexthopInvalid && pathList[index].Compare(best) == 0 {
+		index++
+	}
 	return pathList[:index]
 }
 
